@@ -191,6 +191,35 @@ def exception_rules(ctx, prefix, sinks, modules=None):
     return n_try
 
 
+def short_read_rules(ctx, prefix):
+    """np.fromfile returns *fewer* values than asked for at end of file without raising; the reshape to the exact
+    shape is what turns a truncated binary file into an exception.  A wildcard dimension (-1) in a reshape of
+    fromfile data accepts the short read, and the tool then writes short FABs and returns normally."""
+    prog = ctx.prog
+    n = 0
+    for fi in prog.all_functions():
+        if not any(isinstance(c, ast.Call) and norm(c.func) in ("np.fromfile", "numpy.fromfile")
+                   for c in walk_no_nested(fi.node)):
+            continue
+        n += 1
+        wild = []
+        for c in walk_no_nested(fi.node):
+            if isinstance(c, ast.Call) and isinstance(c.func, ast.Attribute) and c.func.attr == "reshape":
+                def minus_one(x):
+                    return isinstance(x, ast.UnaryOp) and isinstance(x.op, ast.USub) and \
+                        isinstance(x.operand, ast.Constant) and x.operand.value == 1
+                for a in c.args:
+                    if minus_one(a) or (isinstance(a, (ast.Tuple, ast.List)) and any(minus_one(e) for e in a.elts)):
+                        wild.append(c)
+        ctx.check(not wild, f"{prefix}.X4", fi.site,
+                  "data read with np.fromfile is reshaped to its exact shape (a short read raises)",
+                  f"`{norm(wild[0])[:70] if wild else ''}` has a wildcard dimension: np.fromfile silently returns fewer "
+                  f"values at the end of a truncated file, and with -1 the reshape no longer fails — the tool carries on "
+                  f"with a short box and returns normally instead of reporting the unreadable input", key="short-read",
+                  where=loc(fi, wild[0]) if wild else None, semantic=True)
+    ctx.floor("functions reading FAB data with np.fromfile", n, 20)
+
+
 def run(ctx):
     prog = ctx.prog
     sinks, penv, wk = sink_rules(ctx, P)
@@ -210,6 +239,7 @@ def run(ctx):
         ctx.check(not bad, f"{P}.W3", main.site, f"read-only tool reaches no write sink ({len(reach)} functions)",
                   f"read-only tool reaches write sinks in {bad}", key="read-only")
     exception_rules(ctx, P, sinks)
+    short_read_rules(ctx, P)
     # X2 over all pool sites
     n_sites = 0
     for fi in prog.all_functions():
